@@ -29,18 +29,26 @@ theorem C15_other_class_unchanged (cfg : Cfg) (x : String) (c : IClass) (h : c.t
     simp only [classStmt, classItems, emitMethods_withIgnore, moduleVar_withIgnore]
   simp only [emitClass, h1, h2]
 
-/-- the ignored class itself: its `py::class_` statement disappears — the whole block when it has no enums
-    (FULL STATEMENT without the guard is false today: the enums of an ignored class are still emitted) -/
-theorem C15_ignored_class_removed_partial (cfg : Cfg) (c : IClass) (he : c.enums = []) :
+/-- the ignored class itself: its whole block disappears — the `py::class_` statement and the enums declared in it
+    (full statement; before fix 7842d82 the enums of an ignored class were still emitted and this theorem carried the
+    guard `c.enums = []`) -/
+theorem C15_ignored_class_removed (cfg : Cfg) (c : IClass) :
     emitClass (withIgnore cfg c.toCpp) c = [] := by
-  simp [emitClass, withIgnore, classEnums, he]
+  simp [emitClass, withIgnore]
 
-theorem C15_ignored_class_counterexample :
-    ∃ (cfg : Cfg) (c : IClass), emitClass (withIgnore cfg c.toCpp) c ≠ [] :=
-  ⟨{ moduleName := "m", top := [""], useBoost := false, ignore := [] },
-   { name := "A", origName := "A", hasTmpl := false, insts := [], isVirtual := false, nsPath := [""], parentClass := none,
-     ctors := [], statics := [], props := [], ops := [], enums := [⟨.enum, "E", ["X"]⟩], methods := [], dunders := [] },
-   by simp [emitClass, classEnums]⟩
+/-- ignoring a class is deleting its declaration: the statements of a namespace body with the class on the ignore
+    list are those of the body without the declaration (the other declarations are classes other than `c`, or anything
+    that is not a class) -/
+theorem C15_ignore_is_delete (cfg : Cfg) (p : List String) (mv : String) (xs ys : List IDecl) (c : IClass) :
+    (emitInner (withIgnore cfg c.toCpp) p mv (xs ++ .cls c :: ys)).1 =
+      (emitInner (withIgnore cfg c.toCpp) p mv (xs ++ ys)).1 := by
+  induction xs with
+  | nil =>
+    have h := C15_ignored_class_removed cfg c
+    simp [emitInner, h]
+  | cons d r ih =>
+    simp only [List.cons_append]
+    cases d <;> simp [emitInner, ih]
 
 /-- locality: the statements of a namespace body are the concatenation of per-declaration blocks in order —
     inserting or deleting a declaration inserts or deletes its own block and nothing else -/
